@@ -542,3 +542,52 @@ Proof.
   rewrite batches_visible in H1, H2 by auto.
   pose proof (wf_inj _ Hwf _ _ _ _ H1 H2 Hf). lia.
 Qed.
+
+(* ------------------------------------------------------------------ Import.import is such a step *)
+(* When the builder holds no snapshot and fewer packets are fed than the snapshot interval, FromPcap
+   (Import.import) is: assemble the feed, classify every stream with [dump], nothing else.  The feed is
+   BuilderOrder.feed of ALL known captures and the new ones (C05: the global sort). *)
+Section Link.
+  Variable hashf : N -> N.
+  Variable thr : N.
+  Variable final_flush : bool.
+
+  Definition written (fed : list packet) : factory :=
+    let a := fold_left (asm_step hashf) fed asm0 in
+    if final_flush then tcp_flush_all (a_fac a) (a_tcp a) else a_fac a.
+
+  Lemma loop_no_snapshot : forall fed st best,
+    l_nafter st + N.of_nat (length fed) <= thr ->
+    l_asm (fold_left (loop_step hashf thr best) fed st) = fold_left (asm_step hashf) fed (l_asm st) /\
+    l_snaps (fold_left (loop_step hashf thr best) fed st) = l_snaps st.
+  Proof.
+    induction fed as [|p fed IH]; intros st best Hle; simpl fold_left; [auto|].
+    assert (Hlt : (thr <=? l_nafter st) = false) by (apply N.leb_gt; simpl length in Hle; lia).
+    unfold loop_step at 2 4. rewrite Hlt. cbn [andb].
+    match goal with |- context [fold_left _ fed ?s] => set (st' := s) end.
+    assert (Hn : l_nafter st' <= l_nafter st + 1 /\ l_asm st' = asm_step hashf (l_asm st) p /\ l_snaps st' = l_snaps st).
+    { unfold st'. destruct (negb (l_nafter st =? 0) || not_after best (p_ts p)); cbn; repeat split; lia. }
+    destruct Hn as (Hn1 & Hn2 & Hn3).
+    destruct (IH st' best) as [A B]; [simpl length in Hle; lia|].
+    rewrite A, B, Hn2, Hn3. auto.
+  Qed.
+
+  Theorem import_without_snapshot_is_dump : forall b st newfiles stack i0 rest,
+    b_snaps b = [] ->
+    flat_map (fun f => match store_get st f with [] => [] | l => [info_of f l] end) newfiles = i0 :: rest ->
+    let newfiles' := map pi_file (i0 :: rest) in
+    let fed := feed (needed_pcaps b None newfiles' st) (flat_map (store_get st) newfiles') in
+    N.of_nat (length fed) <= thr ->
+    forall res nx', dump (written fed) newfiles' stack (next_stream_id stack) (mkResult [] 0 [] [] []) = (res, nx') ->
+    import hashf thr final_flush b st newfiles stack =
+      (mkBuilder (b_known b ++ i0 :: rest) [],
+       Some (mkResult (r_index res) (nx' - next_stream_id stack) (r_upd res) (r_reset res) (r_added res))).
+  Proof.
+    intros b st newfiles stack i0 rest Hs Hinfos newfiles' fed Hlen res nx' Hd.
+    unfold import. rewrite Hinfos, Hs. cbn [best_snapshot filter].
+    fold newfiles'. fold fed.
+    destruct (loop_no_snapshot fed (mkLoop asm0 0 None []) None) as [A B]; [simpl; lia|].
+    cbn [l_asm l_snaps] in A, B. rewrite A, B.
+    unfold written in Hd. rewrite Hd. reflexivity.
+  Qed.
+End Link.
